@@ -185,7 +185,10 @@ theorem rejected_strict (cfg : ScanCfg) (hl : LangOk cfg.lang) (s s' : Scanner) 
         have hinv : SInv { s1 with parser := (s1.parser.push cfg.lang tok.lower).2 } := by
           obtain ⟨_, h2, h3, h4⟩ := hs1
           exact ⟨f1, by rw [hsame]; exact h2, h3, h4⟩
-        exact setPrev_strict _ _ (outside_strict cfg _ tok hinv)
+        refine setPrev_strict _ _ ?_
+        split
+        · exact hinv
+        · exact outside_strict cfg _ tok hinv
   · rw [if_neg hn] at he; cases he
     exact setPrev_strict _ _ (outside_strict cfg s tok h)
 
